@@ -60,11 +60,11 @@ class Rule(object):
     def undecided(self, key, site, detail):
         self._add(key, UNDECIDED, site, detail)
 
-    def check(self, cond, key, site, detail_ok='', detail_bad=''):
+    def check(self, cond, key, site, detail_ok='', detail_bad='', sure=False):
         if cond:
             self.ok(key, site, detail_ok)
         else:
-            self.violated(key, site, detail_bad or detail_ok)
+            self.violated(key, site, detail_bad or detail_ok, sure=sure)
         return cond
 
     def note(self, text):
